@@ -141,6 +141,8 @@ type c29acc struct {
 	knownPos  int
 	exByte    string
 	exPos     string
+	wByte     interface{}
+	wPos      interface{}
 }
 
 func (a *c29acc) violation(detail string, w interface{}) {
@@ -192,12 +194,16 @@ func (a *c29acc) judge(where string, sch c29schema, align bool, col c29col, got 
 				a.knownByte++
 				if a.exByte == "" {
 					a.exByte = fmt.Sprintf("schema [%s] align=%v %s: %s", sch, align, where, d)
+					a.wByte = map[string]interface{}{"schema": sch.String(), "align": align, "rows": n, "path": where, "column": col.name,
+						"written": fmt.Sprintf("%T %v", col.data, clip(col.data, 8)), "read_back": fmt.Sprintf("%T %v", got, clip(got, 8))}
 				}
 			}
 			if trigPos && string(gb) != string(wb) {
 				a.knownPos++
 				if a.exPos == "" {
 					a.exPos = fmt.Sprintf("schema [%s] align=%v %s: %s", sch, align, where, d)
+					a.wPos = map[string]interface{}{"schema": sch.String(), "align": align, "rows": n, "path": where, "column": col.name,
+						"written": fmt.Sprintf("%T %v", col.data, clip(col.data, 8)), "read_back": fmt.Sprintf("%T %v", got, clip(got, 8))}
 				}
 			}
 			return
@@ -457,11 +463,11 @@ func c29run(c *runner.Ctx) runner.Result {
 	}
 	if a.knownByte > 0 {
 		res.Count("byte_columns_read_back_as_uint8", int64(a.knownByte))
-		res.Known("F-BYTECOL", fmt.Sprintf("%d BYTE (int8) columns were read back from rows as []uint8; first: %s", a.knownByte, a.exByte), nil)
+		res.Known("F-BYTECOL", fmt.Sprintf("%d BYTE (int8) columns were read back from rows as []uint8; first: %s", a.knownByte, a.exByte), a.wByte)
 	}
 	if a.knownPos > 0 {
 		res.Count("columns_before_epoch_misread", int64(a.knownPos))
-		res.Known("F-EPOCHPOS", fmt.Sprintf("%d columns of series whose Epoch is not the first column were read back from the wrong offset; first: %s", a.knownPos, a.exPos), nil)
+		res.Known("F-EPOCHPOS", fmt.Sprintf("%d columns of series whose Epoch is not the first column were read back from the wrong offset; first: %s", a.knownPos, a.exPos), a.wPos)
 	}
 	return res
 }
